@@ -480,13 +480,15 @@ def run(ctx):
               'with it on every case and on a malformed stream)',
               'enc_gen: AST reader of Encoder.__init__ / dispatch sites / cql_encode_decimal (fails closed)',
               'prepared-path value = cassandra.cqltypes serialisers (DoubleType, DecimalType, UUIDType, DateType, SimpleDateType, TimeType)',
-              'Double.parseDouble(token) = Python float(token) (both correctly rounded); BigDecimal(String) transcribed in read_decimal')
+              'Double.parseDouble(token) = Python float(token) (both correctly rounded); BigDecimal(String) transcribed in read_decimal',
+              'Section hypotheses of Props/C29.v (float_parses, float_reads, float_head, decimal_parses, decimal_reads, decimal_head): '
+              'laws of Python repr(float) / str(Decimal), exercised on every generated float and Decimal')
     ctx.assume('repr(float) / str(Decimal) parse back (hypotheses float_parses / decimal_parses of Proofs/C29_proofs.v); str(UUID), '
                'strftime("%Y-%m-%d"), str(time), addr.compressed are model inputs and contain no quote',
                'a subclass does not override the methods the encoder calls on it (__str__, strftime, items, __iter__, ...)',
                'dates are generated with year >= 1000 (strftime("%Y") does not zero-pad smaller years on this platform; whether Cassandra '
                'accepts such a date string is not known offline -- evidence only)')
-    n = 700 if ctx.tier == 'quick' else 12000
+    n = 700 if ctx.tier == 'quick' else 4000
     vals = load_corpus()
     # every scalar pool value plainly and as a subclass, then random nested values
     for s in TEXTS:
@@ -515,7 +517,7 @@ def run(ctx):
         evaluate(ctx, v, enc, ex, lits, cases, meta)
     # malformed stream: the Coq parser and the Python twin must agree on arbitrary text too
     alpha = list("0123456789abcdefxXeE+-.'\"[]{}(),: \nNULtrueFALSEnaInfinity_;%")
-    for _ in range(400 if ctx.tier == 'quick' else 4000):
+    for _ in range(400 if ctx.tier == 'quick' else 2000):
         if ctx.rng.random() < 0.5 and meta:
             s = list(ctx.rng.choice(meta)[1][:60])
             for _ in range(ctx.rng.randint(1, 3)):
